@@ -10,6 +10,8 @@
                          at any later time), "drop" (lost), "dup" (queued twice).
                          Operations may also fall into the window of a running callback
                          (CbOps: "none", "one" = at most one per callback, "both" = any).
+     Break               (Breaks = TRUE) the event watcher fails at run time and cannot be
+                         created again: from then on every notification is lost
    Loop (one goroutine):
      EvDeliver           a queued notification arrives: reconcile
      Tick                periodic reconciliation: reconcile
@@ -26,7 +28,9 @@
                          longer carries that fingerprint the evaluation is forgotten and the
                          debounce re-armed; "rearm": only re-armed; "none": nothing.
 
-   The watch loop as it is: Recheck = TRUE, Post = "forget", Record = "always".
+     Blind = TRUE: without an event watcher the periodic reconciliation is skipped too.
+
+   The watch loop as it is: Recheck = TRUE, Post = "forget", Record = "always", Blind = FALSE.
    The other values are designs that look plausible and are wrong; TLC shows that they
    reach a Hazard (the loop at rest although the callback did not run for, or the
    application did not load, the file's content), and every behaviour that ends in a hazard
@@ -47,10 +51,12 @@ CONSTANTS Contents,   \* e.g. {"A", "B"}
           Recheck,    \* BOOLEAN
           Post,       \* "none" | "rearm" | "forget"
           Record,     \* "always" | "accept"
+          Breaks,     \* BOOLEAN: the watcher may break for good
+          Blind,      \* BOOLEAN: no reconciliation while there is no watcher
           Export      \* BOOLEAN: record behaviours (h) and print them as scenarios
 
-VARIABLES file, observed, evaluated, armed, pending, loaded, ran, cb, cand, cbn, nops, calls, h
-vars == <<file, observed, evaluated, armed, pending, loaded, ran, cb, cand, cbn, nops, calls, h>>
+VARIABLES file, observed, evaluated, armed, pending, loaded, ran, cb, cand, cbn, nops, calls, broken, h
+vars == <<file, observed, evaluated, armed, pending, loaded, ran, cb, cand, cbn, nops, calls, broken, h>>
 
 Missing == "missing"
 Unknown == "unknown"
@@ -58,7 +64,7 @@ Unknown == "unknown"
 Init == /\ file \in Contents \ Rejects
         /\ observed = file /\ evaluated = file /\ loaded = file /\ ran = file
         /\ armed = FALSE /\ pending = 0 /\ nops = 0 /\ calls = <<>>
-        /\ cb = "idle" /\ cand = file /\ cbn = 0
+        /\ cb = "idle" /\ cand = file /\ cbn = 0 /\ broken = FALSE
         /\ h = <<[a |-> "init", c |-> file]>>
 
 Log(es) == h' = IF Export THEN h \o es ELSE h
@@ -70,11 +76,11 @@ Op(kind, c, fate) ==
     /\ cb # "idle" => (CbOps = "both" \/ (CbOps = "one" /\ cbn = 0))
     /\ cbn' = IF cb # "idle" THEN cbn + 1 ELSE cbn
     /\ file' = c /\ nops' = nops + 1
-    /\ pending' = IF fate = "drop" THEN pending
+    /\ pending' = IF fate = "drop" \/ broken THEN pending
                   ELSE IF fate = "deliver" THEN (IF pending < 2 THEN pending + 1 ELSE 2)
                   ELSE 2
     /\ Log(<<[a |-> "op", kind |-> kind, c |-> c, fate |-> fate]>>)
-    /\ UNCHANGED <<observed, evaluated, armed, loaded, ran, cb, cand, calls>>
+    /\ UNCHANGED <<observed, evaluated, armed, loaded, ran, cb, cand, calls, broken>>
 
 Reconcile == IF file # observed
                THEN observed' = file /\ armed' = TRUE
@@ -82,12 +88,19 @@ Reconcile == IF file # observed
 
 EvDeliver == /\ cb = "idle" /\ pending > 0 /\ pending' = pending - 1
              /\ Reconcile /\ Log(<<[a |-> "ev"]>>)
-             /\ UNCHANGED <<file, evaluated, loaded, ran, cb, cand, cbn, nops, calls>>
+             /\ UNCHANGED <<file, evaluated, loaded, ran, cb, cand, cbn, nops, calls, broken>>
 
 \* when exporting, only ticks that see a change are kept (the others change nothing)
 Tick == /\ cb = "idle" /\ (Export => file # observed)
+        /\ ~(Blind /\ broken)
         /\ Reconcile /\ Log(<<[a |-> "tick"]>>)
-        /\ UNCHANGED <<file, evaluated, pending, loaded, ran, cb, cand, cbn, nops, calls>>
+        /\ UNCHANGED <<file, evaluated, pending, loaded, ran, cb, cand, cbn, nops, calls, broken>>
+
+\* the watcher fails (error on its channel) and every attempt to create a new one fails
+Break == /\ Breaks /\ ~broken /\ cb = "idle"
+         /\ broken' = TRUE /\ pending' = 0
+         /\ Log(<<[a |-> "break"]>>)
+         /\ UNCHANGED <<file, observed, evaluated, armed, loaded, ran, cb, cand, cbn, nops, calls>>
 
 Fire == /\ cb = "idle" /\ armed
         /\ IF Recheck /\ file # observed
@@ -102,12 +115,12 @@ Fire == /\ cb = "idle" /\ armed
                             /\ Log(<<[a |-> "fire"], [a |-> "cbstart"]>>)
                        ELSE /\ Log(<<[a |-> "fire"]>>)
                             /\ UNCHANGED <<evaluated, ran, cb, cand, cbn, calls>>
-        /\ UNCHANGED <<file, pending, loaded, nops>>
+        /\ UNCHANGED <<file, pending, loaded, nops, broken>>
 
 CbRead == /\ cb = "started" /\ cb' = "read"
           /\ loaded' = file                                       \* the callback reads the file itself
           /\ Log(<<[a |-> "cbread"]>>)
-          /\ UNCHANGED <<file, observed, evaluated, armed, pending, ran, cand, cbn, nops, calls>>
+          /\ UNCHANGED <<file, observed, evaluated, armed, pending, ran, cand, cbn, nops, calls, broken>>
 
 CbEnd == /\ cb = "read" /\ cb' = "idle"
          /\ Log(<<[a |-> "cbend"]>>)
@@ -116,12 +129,12 @@ CbEnd == /\ cb = "read" /\ cb' = "idle"
             IN /\ evaluated' = IF moved /\ Post = "forget" THEN Unknown ELSE ev1
                /\ IF moved THEN observed' = file /\ armed' = TRUE
                            ELSE UNCHANGED <<observed, armed>>
-         /\ UNCHANGED <<file, pending, loaded, ran, cand, cbn, nops, calls>>
+         /\ UNCHANGED <<file, pending, loaded, ran, cand, cbn, nops, calls, broken>>
 
 Env == \/ \E k \in Kinds, c \in Contents, f \in Fates : Op(k, c, f)
        \/ \E f \in Fates : Op("delete", Missing, f)
 Loop == EvDeliver \/ Tick \/ Fire \/ CbRead \/ CbEnd
-Next == Env \/ Loop
+Next == Env \/ Break \/ Loop
 
 Spec == Init /\ [][Next]_vars
 FairSpec == Spec /\ WF_vars(Tick) /\ WF_vars(Fire) /\ WF_vars(CbRead) /\ WF_vars(CbEnd)
@@ -140,7 +153,8 @@ Converges == <>[](ran = file)
 \* ... and what the application loaded then is the file's content
 LoadsFinal == <>[](file # Missing => loaded = file)
 
-Quiet == nops = MaxOps /\ cb = "idle" /\ ~armed /\ pending = 0 /\ observed = file
+Quiet == nops = MaxOps /\ cb = "idle" /\ ~armed /\ pending = 0
+         /\ (observed = file \/ (Blind /\ broken))
 \* at rest, and the callback did not run for / the application did not load the file's
 \* content: from here only stuttering is possible, so Converges / LoadsFinal fail
 Hazard == Quiet /\ file # Missing /\ (loaded # file \/ ran # file)
